@@ -48,3 +48,52 @@ __CPROVER_ensures(g_dispatched != OLD(g_dispatched) ==> (g_dispatched == OLD(g_d
     dropped=[], trusted=['the stage contracts restate the postconditions proved by LG.log_statement, BQ.*/UQ.* (FIFO byte stream), BW.read_decode, BW.populate, TEB.*, BW.process_lowest, BW.cleanup_pred; liveness (every step eventually happens) is not claimed'],
     min_obligations=3)
 UNITS = [pipeline]
+
+# ------------------------------------------------------------------------------------------ C05: composition of the ordering mechanisms
+ORDER = r'''
+/* One processing step of a backend pass, one arbitrary OTHER statement s that is not yet written.  All instants and
+   timestamps are readings of one monotone clock (ASSUMPTION, stated in the property: rdtsc conversion / system clock).
+   Scalars of the step:                                                                                                   */
+uint64_t g_Tnow;      /* instant at which the pass read ts_now (before it read any queue)                                   */
+uint64_t g_G;         /* log_timestamp_ordering_grace_period                                                                */
+uint64_t g_L;         /* admission limit of the pass                                                                        */
+uint64_t g_tp;        /* timestamp of the event this step processes                                                         */
+/* the thread j that owns s (j may be the thread of the processed event) */
+bool g_buf_nonempty;  /* j's backend buffer is non-empty when the minimum is selected                                       */
+uint64_t g_front;     /* timestamp at the front of j's buffer (if non-empty)                                                */
+uint64_t g_Tread;     /* instant at which the pass finished reading j's queue                                               */
+uint64_t g_Tchk;      /* instant of the last negative pending check before this step (batch loop), if there was one         */
+bool g_checked;       /* this step was preceded by a negative pending check (every step of a batch loop but the first of a pass) */
+/* the statement s of thread j */
+uint64_t g_ts, g_es;  /* its timestamp and the instant its enqueue completed (commit_write)                                 */
+enum { S_IN_BUFFER, S_IN_QUEUE, S_NOT_ENQUEUED } g_where;   /* where s is when the minimum is selected                       */
+/* restated stage contracts */
+#define A_LIMIT      (g_L + g_G == g_Tnow)                                   /* BW.populate_all: limit = ts_now - grace (same unit)            */
+#define A_ADMISSION  (g_tp <= g_L && (g_buf_nonempty ==> g_front <= g_L))     /* BW.populate: only statements with ts <= limit are admitted; limits of earlier passes are smaller (monotone clock) */
+#define B_SELECTION  (g_buf_nonempty ==> g_tp <= g_front)                     /* BW.process_lowest: processed event <= every other buffer front */
+#define C_THREAD_ORDER (g_buf_nonempty ==> g_front <= g_ts)                   /* C01-C03 + TEB.*: buffer and queue keep thread order, per-thread clock monotone: everything of j not yet written is >= j's front */
+#define C_IN_BUFFER  (g_where == S_IN_BUFFER ==> g_buf_nonempty)
+#define D_READ_PASS  ((g_where == S_IN_QUEUE && !g_buf_nonempty && !g_checked) ==> (g_ts > g_L || g_es > g_Tread))  /* BW.read_decode/BW.populate: a record left in the queue of a thread whose buffer is empty was refused by the limit, or was not there when the queue was read (the hard limit leaves the buffer non-empty) */
+#define D_ORDER      (g_Tread >= g_Tnow && g_Tchk >= g_Tnow)                  /* the queues are read, and pending checks made, after ts_now was taken */
+#define E_BATCH      ((g_checked && g_where == S_IN_QUEUE && !g_buf_nonempty) ==> g_es > g_Tchk)   /* BW.batch + BW.has_pending: no step while some thread has an empty buffer and a non-empty queue */
+#define F_FUTURE     (g_where == S_NOT_ENQUEUED ==> g_es > g_Tnow)            /* not enqueued yet when the minimum is selected, which is after ts_now was taken */
+#define F_GRACE      (g_es <= g_ts + g_G)                                     /* the property's own premise: enqueued no later than the grace period after the timestamp was taken */
+#define BOUNDS       ((g_where == S_IN_BUFFER || g_where == S_IN_QUEUE || g_where == S_NOT_ENQUEUED) && g_L < (1ULL << 62) && g_Tnow < (1ULL << 62) && g_G < (1ULL << 62) && g_ts < (1ULL << 62) && g_es < (1ULL << 62))
+'''
+order = dict(
+    name='LEM.order', primary='C05', props={'C05'}, kind='M',
+    desc='composition lemma for the global timestamp order: from the restated contracts of admission, min-selection, thread order, read pass, batch loop / pending check and the grace-period premise, the event processed by any step is not newer than any statement still unwritten (in a buffer, in a queue, or not yet enqueued)',
+    structs=[], prelude=ORDER, enforce='lem_order_step', replace=[],
+    funcs=[dict(cfun='lem_order_step', text=r'''
+void lem_order_step(void)
+__CPROVER_requires(BOUNDS && A_LIMIT && A_ADMISSION && B_SELECTION && C_THREAD_ORDER && C_IN_BUFFER && D_READ_PASS && D_ORDER && E_BATCH && F_FUTURE && F_GRACE)
+__CPROVER_assigns()
+__CPROVER_ensures(g_tp <= g_ts) /*@ C05 "the statement written by any processing step is not newer than any statement written later (composition of admission, selection, thread order, read pass, pending check and the grace-period premise)" */
+{
+}
+''')],
+    harness='  lem_order_step();',
+    dropped=[], trusted=['the macros restate postconditions proved by BW.populate, BW.populate_all, BW.process_lowest, BW.read_decode, BW.batch, BW.has_pending, TEB.*, BQ/UQ (FIFO) - by hand, not mechanically the same text',
+                         'one monotone clock for timestamps and instants (rdtsc conversion, system clock, user clocks are assumptions of the property)', 'per-thread timestamps are non-decreasing (clock read at the start of each log call on the calling thread)'],
+    min_obligations=1)
+UNITS.append(order)
